@@ -56,7 +56,8 @@ type Stats struct {
 	Paths, AssumeFails, Aborts, EscapedPanics int
 	Obligations, ObligationsHeld             int
 	FlipSat, FlipUnsat, FlipUnknown          int
-	CacheHits                                int
+	CacheHits, CoreHits                      int
+	ObligTime, FlipTime, RunTime             time.Duration
 	Divergences                              int
 	Decisions                                int64
 	Steps                                    int64
@@ -79,6 +80,7 @@ type Explorer struct {
 	Deadline   time.Time
 	MaxViol    int
 	models     []cachedModel
+	cores      map[int][][]int // negated-literal ID -> unsat cores (literal IDs of the prefix)
 	SampleKeep int
 	Samples    []*PathReport
 }
@@ -218,6 +220,7 @@ func (e *Explorer) Explore(inst *Instance) {
 	e.Stats = Stats{AbortReasons: map[string]int{}}
 	e.Viol = nil
 	e.models = nil
+	e.cores = map[int][][]int{}
 	e.Samples = nil
 	stack := []workItem{{model: sym.Model{}}}
 	for len(stack) > 0 {
@@ -235,7 +238,9 @@ func (e *Explorer) Explore(inst *Instance) {
 		}
 		it := stack[len(stack)-1]
 		stack = stack[:len(stack)-1]
+		tr := time.Now()
 		rep := e.RunPath(it.model)
+		e.Stats.RunTime += time.Since(tr)
 		// divergence check: the run must follow the forced prefix
 		div := len(rep.PC) < it.bound
 		if !div {
@@ -249,8 +254,7 @@ func (e *Explorer) Explore(inst *Instance) {
 		if div {
 			if it.fromCache {
 				// the remembered model was incomplete for this path: ask the solver
-				e.S.SetPrefix(it.flipLits[:len(it.flipLits)-1])
-				res, model := e.S.CheckWith(true, it.flipLits[len(it.flipLits)-1])
+				res, model := e.S.CheckAssuming(it.flipLits, true)
 				switch res {
 				case sym.Sat:
 					it.model = model
@@ -291,7 +295,6 @@ func (e *Explorer) Explore(inst *Instance) {
 			e.Stats.EscapedPanics++
 			e.Stats.Paths++
 		}
-		e.remember(rep.Model)
 		lits := e.lits(rep.PC)
 		// obligations first (they only need prefixes)
 		e.checkObligations(rep, lits, it.bound)
@@ -302,6 +305,10 @@ func (e *Explorer) Explore(inst *Instance) {
 			e.Samples = append(e.Samples, rep)
 		}
 		// flips, deepest first
+		pos := make(map[int]int, len(lits))
+		for k, l := range lits {
+			pos[l.ID] = k
+		}
 		for i := len(rep.PC) - 1; i >= it.bound; i-- {
 			d := rep.PC[i]
 			if d.Fixed {
@@ -311,16 +318,28 @@ func (e *Explorer) Explore(inst *Instance) {
 			q := append(append([]*sym.Term(nil), lits[:i]...), neg)
 			var model sym.Model
 			fromCache := false
-			if cm := e.tryCache(q); cm != nil {
-				model = cm
-				fromCache = true
-				e.Stats.CacheHits++
-			} else {
-				e.S.SetPrefix(lits[:i])
-				res, mod := e.S.CheckWith(true, neg)
+			if e.coreHit(neg, lits[:i], pos) {
+				e.Stats.CoreHits++
+				continue
+			}
+			{
+				tq := time.Now()
+				res, mod := e.S.CheckAssuming(q, true)
+				e.Stats.FlipTime += time.Since(tq)
 				switch res {
 				case sym.Unsat:
 					e.Stats.FlipUnsat++
+					if e.S.LastCore != nil {
+						core := make([]int, 0, len(e.S.LastCore))
+						for _, l := range e.S.LastCore {
+							if l != neg {
+								core = append(core, l.ID)
+							}
+						}
+						if len(e.cores[neg.ID]) < 64 {
+							e.cores[neg.ID] = append(e.cores[neg.ID], core)
+						}
+					}
 					continue
 				case sym.Unknown:
 					e.Stats.FlipUnknown++
@@ -341,6 +360,23 @@ func (e *Explorer) Explore(inst *Instance) {
 			stack = append(stack, w)
 		}
 	}
+}
+
+// coreHit: a remembered unsat core for ¬lit is contained in the prefix.
+func (e *Explorer) coreHit(neg *sym.Term, prefix []*sym.Term, pos map[int]int) bool {
+	for _, core := range e.cores[neg.ID] {
+		ok := true
+		for _, id := range core {
+			if p, in := pos[id]; !in || p >= len(prefix) {
+				ok = false
+				break
+			}
+		}
+		if ok {
+			return true
+		}
+	}
+	return false
 }
 
 func firstLine(s string) string {
@@ -366,8 +402,9 @@ func (e *Explorer) checkObligations(rep *PathReport, lits []*sym.Term, bound int
 			e.Stats.ObligationsHeld++
 			continue
 		}
-		e.S.SetPrefix(lits[:ob.PCLen])
-		res, model := e.S.CheckWith(true, e.Ctx.Not(ob.T))
+		tq := time.Now()
+		res, model := e.S.CheckAssuming(append(append([]*sym.Term(nil), lits[:ob.PCLen]...), e.Ctx.Not(ob.T)), true)
+		e.Stats.ObligTime += time.Since(tq)
 		switch res {
 		case sym.Unsat:
 			e.Stats.ObligationsHeld++
